@@ -62,6 +62,9 @@ type world struct {
 	byPath  map[string]*img
 	fc      faultCfg
 	curCall int
+	runOK   map[string]bool
+	late    map[uint64]bool // goroutines of workers that a carried-over call left behind
+	workers map[uint64]bool // every goroutine that reached worker.start so far
 
 	mu        sync.Mutex
 	outcome   map[string]string // href -> "ok" | failure kind, for the current call
@@ -98,6 +101,18 @@ func (w *world) setOutcomeCtx(ctx context.Context, href, o string) {
 
 func (w *world) setOutcome(href, o string) {
 	w.mu.Lock()
+	if o == "ok" {
+		if w.runOK == nil {
+			w.runOK = map[string]bool{}
+		}
+		w.runOK[href] = true // somebody (a leftover worker too) loaded it in this run
+	}
+	if w.late[runtime.VerifGID()] {
+		// a worker that an earlier, cut-short call left behind (it may still be carrying
+		// out a fault that was chosen for it back then): says nothing about this call
+		w.mu.Unlock()
+		return
+	}
 	cur, ok := w.outcome[href]
 	if !ok || cur == "in-flight" || (o != "ok" && o != "in-flight" && cur == "ok") {
 		w.outcome[href] = o
@@ -601,6 +616,12 @@ func runInBubble(cfg harness.Config, idx int, tp *tape.Tape, dir string, res *ha
 			nameMu.Lock()
 			gname[runtime.VerifGID()] = fmt.Sprint(arg)
 			nameMu.Unlock()
+			w.mu.Lock()
+			if w.workers == nil {
+				w.workers = map[uint64]bool{}
+			}
+			w.workers[runtime.VerifGID()] = true
+			w.mu.Unlock()
 		}
 		sim.Yield(point + ":" + fmt.Sprint(arg))
 	}
@@ -723,6 +744,14 @@ func runInBubble(cfg harness.Config, idx int, tp *tape.Tape, dir string, res *ha
 		if carryOver && ci < len(calls)-1 && (cancelled || elapsed >= 5*time.Minute) {
 			calm = true
 			w.fc = faultCfg{shortRead: w.fc.shortRead}
+			w.mu.Lock()
+			if w.late == nil {
+				w.late = map[uint64]bool{}
+			}
+			for g := range w.workers {
+				w.late[g] = true
+			}
+			w.mu.Unlock()
 			res.Probe("leftover_workers_carried_into_the_next_call")
 		} else {
 			sim.Flush()
@@ -762,7 +791,17 @@ func runInBubble(cfg harness.Config, idx int, tp *tape.Tape, dir string, res *ha
 				continue
 			}
 			oc, touched := outcome[href]
+			w.mu.Lock()
+			loadedBefore := w.runOK[href]
+			w.mu.Unlock()
 			switch {
+			case !touched && calm && cs.Cache && loadedBefore:
+				// carry-over runs: a leftover worker of an earlier call loaded the image
+				// (with the cache on it is cached now) and this call did not have to fetch
+				// it; nothing changes in such runs, so the content is the image's
+				want[href] = im.Content
+				modelCache[href] = im.Content
+				res.Probe("cache_hit_through_a_leftover_worker")
 			case !touched:
 				// never fetched: only legitimate when the call was cut short
 				failed = append(failed, href+" (never fetched)")
